@@ -1598,6 +1598,7 @@ pub fn generate_family(family: &str, id: &str, tier: &str, rng: &mut Rng) -> Val
         "reflink" => gen_reflink(rng),
         "abandon" => gen_abandon(rng),
         "abandon-chunk" => gen_abandon_chunk(rng),
+        "own-writes" => gen_own_writes(rng),
         _ => gen_same_content(rng, tier),
     };
     if family == "abandon-chunk" && id == "C20" {
@@ -1771,6 +1772,51 @@ fn gen_abandon_chunk(rng: &mut Rng) -> Value {
     }
     json!({"keys":keys,"vals":vals,"prelude":prelude,"clients":[{"bin":f.0,"steps":steps}],"post":post,"strict_tmp":true,
            "plan":{"kind":"single","faults":[],"schedule":{"policy":"first"}},"oracle":"strict"})
+}
+
+/// One async client reads back what it has itself just written or removed, with the runtime's pool threads under the
+/// scheduler: a system call that a call left behind on a pool thread (unflushed append, unlink in a destructor) is
+/// still parked when the next call starts, and the schedule decides which goes first. An acknowledged write / removal
+/// must be visible to the caller's next call in every such schedule.
+fn gen_own_writes(rng: &mut Rng) -> Value {
+    let keys = vec!["k".to_string(), "other".to_string()];
+    let vals = vec![json!({"seed": rng.next_u64() >> 1, "len": *rng.pick(&[0u64, 11, 5000])}), json!({"seed": rng.next_u64() >> 1, "len": 23})];
+    let f = *rng.pick(&[("tokio", "async"), ("tokio", "async"), ("astd", "async")]);
+    let mut steps = Vec::new();
+    let mut present = false;
+    let n = rng.range(2, 5);
+    for _ in 0..n {
+        let st = if !present || rng.chance(1, 2) {
+            present = true;
+            let entry = *rng.pick(&["write", "create", "opts", "write_algo"]);
+            let mut w = json!({"k":"api","op":"write","entry":entry,"key":0,"val":rng.below(2),"mode":"async"});
+            if entry == "write_algo" {
+                w["algo"] = json!("sha256");
+            }
+            if entry == "opts" {
+                w["opts"] = json!({"meta":{"n":rng.below(100)}});
+            }
+            w
+        } else {
+            present = false;
+            if rng.chance(1, 3) { json!({"k":"api","op":"remove_opts","fully":true,"key":0,"mode":"async"}) } else { json!({"k":"api","op":"remove","key":0,"mode":"async"}) }
+        };
+        steps.push(st);
+        // looked at straight away by the same caller (async or sync entry points of the same process)
+        let m = *rng.pick(&["async", "async", "sync"]);
+        steps.push(match rng.below(4) {
+            0 => json!({"k":"api","op":"read","key":0,"mode":m}),
+            1 => json!({"k":"api","op":"list","mode":"sync"}),
+            _ => json!({"k":"api","op":"metadata","key":0,"mode":m}),
+        });
+    }
+    let mut post = Vec::new();
+    for fl in PURE {
+        post.push(json!({"k":"audit","bin":fl.0,"mode":fl.1,"what":["metadata","read","list"]}));
+    }
+    let sched = if rng.chance(1, 2) { json!({"policy":"first"}) } else { json!({"policy":*rng.pick(&["random","pct"]),"seed":rng.next_u64() >> 1,"depth":2,"horizon":40}) };
+    json!({"keys":keys,"vals":vals,"prelude":[],"clients":[{"bin":f.0,"steps":steps}],"post":post,"strict_tmp":true,
+           "plan":{"kind":"single","faults":[],"schedule":sched},"oracle":"strict"})
 }
 
 fn gen_same_content(rng: &mut Rng, tier: &str) -> Value {
